@@ -396,6 +396,36 @@ def run(tier, seed, pool, t0):
             p.join(30)
             if p.is_alive():
                 p.kill()
+    # fixed scenarios that need another manager configuration / a registered class of their own (real processes)
+    import os
+    import subprocess
+    from mc.explore import PY, REPO, VERIF
+    cs = ConfigStats('scenarios', dict(names=['custom_authkey_nested', 'managed_in_constructor']))
+    cs.t0 = time.time()
+    try:
+        r = subprocess.run([PY, os.path.join(VERIF, 'checks', 'twins', 'c14_scenarios.py')], capture_output=True, text=True,
+                           timeout=180, env=dict(os.environ, PYTHONPATH=os.path.join(REPO, 'src')), cwd='/')
+        lines = [ln for ln in r.stdout.splitlines() if ln.startswith('SCENARIO ')]
+    except subprocess.TimeoutExpired:
+        lines = []
+    seen_names = set()
+    for ln in lines:
+        _, nm, res = ln.split(' ', 2)
+        seen_names.add(nm)
+        cs.execs += 1
+        cs.nodes += 1
+        cs.nontrivial += 1
+        if res == 'OK':
+            cs.outcomes['ok'] += 1
+        else:
+            cs.violations['scenario-fails:' + nm] = dict(count=1, choices=[nm], detail=res, no_replay=True)
+    for nm in cs.cfg['names']:
+        if nm not in seen_names:
+            cs.violations['scenario-fails:' + nm] = dict(count=1, choices=[nm], detail='the scenario program gave no verdict (watchdog)',
+                                                         no_replay=True)
+    cs.replayed = cs.execs
+    cs.wall = time.time() - cs.t0
+    stats.append(cs)
     return report.conclude(
         PROPERTY, 'checks.c14', tier, seed, stats, t0, pool,
         assumptions=['every RPC is synchronous, so the driver fully orders each history',
